@@ -123,6 +123,23 @@ pub fn gen_c14(rng: &mut Rng, thorough: bool, cases: &mut dyn Write, meta: &mut 
     }
 }
 
+/// C14: histories that straddle a wall-clock second boundary on one thread (hint 9, see serve_engine):
+/// the second response must carry its own clock and a Last-Modified that does not exceed it.
+pub fn gen_c14_boundary(thorough: bool, cases: &mut dyn Write, meta: &mut dyn Write, prop: &str, n0: u64) {
+    let mut n = n0;
+    let now = now_secs();
+    let rounds = if thorough { 3 } else { 1 };
+    for r in 0..rounds {
+        for (mname, mtime) in [("future", (now + 86400) * 1_000_000_000 + 5), ("next-second", (now + 2 + r) * 1_000_000_000)] {
+            let etag = etag_variants()[1].clone();
+            let mut c = case(ent_with(1000, &etag, Some(mtime), ehdr_sets()[1].clone()), "GET", vec![], format!("H:second-boundary mtime={} round={}", mname, r));
+            add_hint(&mut c, 4, Val::opt(etag.as_ref().map(|t| t.val())));
+            add_hint(&mut c, 9, Val::N(1));
+            write_case(cases, meta, prop, &mut n, &c, &[]);
+        }
+    }
+}
+
 /// C15: every request of a broad mix, replayed with HEAD and diffed against its GET twin.
 pub fn gen_c15(rng: &mut Rng, thorough: bool, cases: &mut dyn Write, meta: &mut dyn Write, prop: &str) {
     let mut n = 0u64;
